@@ -233,10 +233,16 @@ func failureViolations(res *Result, panicProp, deadlockProp string) {
 // panicSig classifies a panic by its message class (not by file:line).
 func panicSig(f simrt.Failure) string {
 	c := panicClass(f)
-	if fn := topRepoFunc(f.Stack); fn != "" {
-		return c + "/in-" + fn
+	// (which way the task came back: a send callback runs from the transport's drain, outside flush, on the writer
+	// goroutine - unless the transport writes on the caller's goroutine)
+	via := ""
+	if strings.Contains(f.Stack, ").onDrain") {
+		via = "/via-send-callback"
 	}
-	return c
+	if fn := topRepoFunc(f.Stack); fn != "" {
+		return c + "/in-" + fn + via
+	}
+	return c + via
 }
 
 // topRepoFunc names the innermost function of the repository on the panicking stack
